@@ -28,7 +28,8 @@ partial def connOps (s : Src) (delivered : List Bytes) (matching : Bool) (out : 
   | "rd" =>
     let n ← nat
     let ((d, e), s') := s.read n
-    connOps s' (if matching then delivered else d :: delivered) matching (out.push s!"rd:{digest d}:{errCls e}")
+    -- the error class of a zero-length read is not compared (see the harness)
+    connOps s' (if matching then delivered else d :: delivered) matching (out.push s!"rd:{digest d}:{if n = 0 then "z" else errCls e}")
   | "pf" =>
     match s.prefetch with
     | .ok s' => connOps s' delivered matching (out.push "pf:ok")
